@@ -16,7 +16,8 @@ Record pb_same (w w' : world) : Prop := {
   pb_queue : queue w' = queue w; pb_uri : a_uri w' = a_uri w; pb_astate : a_state w' = a_state w;
   pb_apos : a_pos w' = a_pos w; pb_fresh : a_fresh w' = a_fresh w; pb_atf : a_atf_done w' = a_atf_done w;
   pb_kinds : tkinds w' = tkinds w; pb_lens : tlens w' = tlens w; pb_hist : history w' = history w;
-  pb_last : last_position w' = last_position w; pb_bcalls : bcalls w' = bcalls w; pb_acalls : acalls w' = acalls w
+  pb_last : last_position w' = last_position w; pb_bcalls : bcalls w' = bcalls w; pb_acalls : acalls w' = acalls w;
+  pb_consume : consume w' = consume w; pb_script : script w' = script w
 }.
 
 Lemma pb_refl w : pb_same w w.
